@@ -1,6 +1,7 @@
 //! C19 — dense matrix storage keeps rows aligned and contents intact across operations.
 //!
-//! case:   c19 <u8|u32|f32|i64> <C> <op>…       ops: new r | cap r c | resize n | fill v | cell i j v |
+//! case:   c19 <u8|u32|f32|i64|nuc> <C> <op>…   (nuc = lightmotif's Nucleotide: default value N = 4, not the zero pattern)
+//!         extra op: clonefrom r v  (m.clone_from(&b), b = new(r) filled with v)       ops: new r | cap r c | resize n | fill v | cell i j v |
 //!                                               row i n v… | fromrows nr (n v…)… | itermut v (row k gets v + k%2 in column 0) | itermutrev v (same through iter_mut().rev()) | clone
 //!         c19layout <C> <size> <align>          (the element type is chosen by size: 1,4,8)
 //! answer: after every op "<rows> <hash cells in iter() order> <hash cells in iter().rev() order>[ [cells]]"
@@ -42,6 +43,17 @@ impl Bits for f32 {
     }
     fn bits(self) -> u64 {
         self.to_bits() as u64
+    }
+}
+impl Bits for lightmotif::abc::Nucleotide {
+    // an element type whose `Default` (the wildcard N = 4) is NOT the all-zero bit pattern
+    fn from_bits(b: u64) -> Self {
+        use lightmotif::abc::Alphabet;
+        lightmotif::abc::Dna::symbols()[(b % 5) as usize]
+    }
+    fn bits(self) -> u64 {
+        use lightmotif::abc::Symbol;
+        self.as_index() as u64
     }
 }
 impl Bits for i64 {
@@ -258,6 +270,15 @@ fn run_ops<T: Bits, C: ArrayLength + PartialEq>(ops: &[&str]) -> (String, Result
                 m = m.clone();
                 i += 1;
             }
+            "clonefrom" => {
+                let r: usize = ops[i + 1].parse().unwrap();
+                let v: u64 = ops[i + 2].parse().unwrap();
+                let mut b = DenseMatrix::<T, C>::new(r);
+                b.fill(T::from_bits(v));
+                m.clone_from(&b);
+                want = vec![vec![mask(v); c]; r];
+                i += 3;
+            }
             x => panic!("bad op {}", x),
         }
         if panicked {
@@ -318,6 +339,7 @@ pub fn exec(line: &str) -> (String, Option<Result<(), String>>, bool) {
         "u8" => by_c!(run_ops, u8, t[2], ops),
         "u32" => by_c!(run_ops, u32, t[2], ops),
         "f32" => by_c!(run_ops, f32, t[2], ops),
+        "nuc" => by_c!(run_ops, lightmotif::abc::Nucleotide, t[2], ops),
         _ => by_c!(run_ops, i64, t[2], ops),
     });
     match r {
@@ -334,6 +356,7 @@ fn val(rng: &mut Rng, ty: &str) -> u64 {
         "u32" => rng.next() & 0xffff_ffff,
         // finite floats only (no NaN bit patterns: `==` on NaN is false by IEEE, not by the library)
         "f32" => ((rng.below(2000) as f32 - 1000.0) / 8.0).to_bits() as u64,
+        "nuc" => rng.below(5) as u64,
         _ => rng.next(),
     }
 }
@@ -349,13 +372,13 @@ pub fn generate(cfg: &Cfg) -> Vec<String> {
     }
     let count = (if cfg.thorough { 20_000 } else { 1_500 }) * cfg.boost;
     for _ in 0..count {
-        let ty = *rng.pick(&["u8", "u32", "f32", "i64"]);
+        let ty = *rng.pick(&["u8", "u32", "f32", "i64", "nuc"]);
         let c = *rng.pick(CS);
         let nops = rng.range(1, 40);
         let mut line = format!("c19 {} {}", ty, c);
         let mut rows = 0usize;
         for _ in 0..nops {
-            match rng.below(12) {
+            match rng.below(13) {
                 0 => {
                     rows = rng.range(0, 12);
                     line.push_str(&format!(" new {}", rows));
@@ -394,8 +417,12 @@ pub fn generate(cfg: &Cfg) -> Vec<String> {
                         rows = nr;
                     }
                 }
-                10 => line.push_str(&format!(" {} {}", if rng.chance(1, 2) { "itermut" } else { "itermutrev" }, rng.below(100))),
-                _ => line.push_str(" clone"),
+                10 => line.push_str(&format!(" {} {}", if rng.chance(1, 2) { "itermut" } else { "itermutrev" }, if ty == "nuc" { rng.below(4) } else { rng.below(100) })),
+                11 => line.push_str(" clone"),
+                _ => {
+                    rows = rng.range(0, 14);
+                    line.push_str(&format!(" clonefrom {} {}", rows, val(&mut rng, ty)));
+                }
             }
         }
         cases.push(line);
